@@ -118,7 +118,17 @@ pub fn cmd_minimise(args: &[String]) -> i32 {
     let scratch = std::path::Path::new(out).parent().unwrap_or(std::path::Path::new(".")).to_path_buf();
     let also_model = args.iter().any(|a| a == "--also-model");
     let mut r = Runner { exe: std::env::current_exe().unwrap(), scratch, runs: 0, also_model };
+    let wall = std::time::Instant::now();
     let target = r.run(&fam);
+    let first_run_s = wall.elapsed().as_secs_f64();
+    // wall-clock budget for the whole minimisation; an episode that takes
+    // seconds by itself (long-history, cost) is not worth hundreds of replays
+    let time_budget_s: f64 = 150.0;
+    if first_run_s > 4.0 {
+        eprintln!("memsim: one replay takes {:.1}s; not minimising", first_run_s);
+        std::fs::write(out, serde_json::to_vec_pretty(&fam).unwrap()).unwrap();
+        return if matches!(target, Verdict::Clean | Verdict::Invalid) { 3 } else { 0 };
+    }
     if matches!(target, Verdict::Clean | Verdict::Invalid) {
         eprintln!("memsim: the replay file does not fail ({:?}); nothing to minimise", target);
         std::fs::write(out, serde_json::to_vec_pretty(&fam).unwrap()).unwrap();
@@ -126,7 +136,7 @@ pub fn cmd_minimise(args: &[String]) -> i32 {
     }
     let before = (total_ops(&fam), fam.base.bufs.iter().map(|b| b.bytes.len()).sum::<usize>());
     let mut progress = true;
-    while progress && r.runs < budget {
+    while progress && r.runs < budget && wall.elapsed().as_secs_f64() < time_budget_s {
         progress = false;
         // 1. drop variants that are not needed
         if fam.variants.len() > 2 {
